@@ -278,7 +278,8 @@ class SoulSeekClient:
 
         try:
             await command.send(self)
-        except Exception:
+        except BaseException:
+            # Also when this task gets cancelled during sending
             if response and response_future:
                 response_future.cancel()
             raise
